@@ -12,7 +12,9 @@ import (
 	"pgregory.net/rapid"
 )
 
-const ruleC11 = "a random SCALE type (reflect: StructOf with shuffled scale:\"N\" tags and scale:\"-\" fields, ArrayOf, SliceOf, MapOf, PointerTo=Option, " +
+func init() { zeroSizeSeqElems = true }
+
+const ruleC11 = "a random SCALE type (reflect: StructOf with shuffled scale:\"N\" tags and scale:\"-\" fields, ArrayOf, SliceOf (also of zero-size elements: empty structs, structs of skipped fields, arrays of those), MapOf, PointerTo=Option, " +
 	"named primitives, *big.Int, *Uint128, scale.Result, harness-defined VaryingDataType; depth <= 4) and a random value of it with integers concentrated on " +
 	"compact-mode boundaries (2^6, 2^14, 2^30, every byte length 4..8, 2^64.., 2^536-1); oracle: scale.Marshal(v) == refscale encoding (maps key-sorted) byte for byte, " +
 	"marshalling twice is identical, scale.Unmarshal into a fresh destination gives a value whose value tree equals v (nil/empty slices identified, skipped fields ignored); " +
